@@ -7,6 +7,7 @@ use crate::{
     search_result::SearchResult,
     story::Story,
     story_error::StoryError,
+    story_state::StoryState,
     value_type::ValueType,
 };
 use std::rc::Rc;
@@ -68,6 +69,12 @@ impl Story {
     ) -> Result<(), StoryError> {
         self.if_async_we_cant("call ChoosePathString right now")?;
 
+        // Check everything that can be refused before changing anything, so that a
+        // refused call leaves the story as it was.
+        let target_path = Path::new_with_components_string(Some(path));
+        Story::pointer_at_path(&self.main_content_container, &target_path)?;
+        StoryState::check_arguments(args)?;
+
         if reset_call_stack {
             self.reset_callstack()?;
         } else {
@@ -108,7 +115,7 @@ impl Story {
 
         self.get_state_mut()
             .pass_arguments_to_evaluation_stack(args)?;
-        self.choose_path(&Path::new_with_components_string(Some(path)), true)?;
+        self.choose_path(&target_path, true)?;
 
         Ok(())
     }
@@ -141,6 +148,8 @@ impl Story {
 
             return Err(StoryError::BadArgument(e));
         }
+
+        StoryState::check_arguments(args)?;
 
         // Snapshot the output stream
         let output_stream_before = self.get_state().get_output_stream().clone();
